@@ -1,5 +1,269 @@
 import PyttbModel.Core.Rows
 import PyttbModel.Core.Dims
 import PyttbModel.Core.Arr
+/-!
+Lemmas about `argsortInt` and `dimscheck` (`tt_dimscheck`).  Core Lean only.
+-/
 namespace Pyttb
+
+/-- the sorted (index,key) pairs behind `argsortInt`. -/
+def sortedPairs (xs : List Int) : List (Nat × Int) :=
+  ((List.range xs.length).zip xs).mergeSort (fun a b => a.2 ≤ b.2)
+
+theorem argsortInt_eq (xs : List Int) : argsortInt xs = (sortedPairs xs).map (·.1) := rfl
+
+theorem sortedPairs_perm (xs : List Int) : (sortedPairs xs).Perm ((List.range xs.length).zip xs) :=
+  List.mergeSort_perm _ _
+
+theorem sortedPairs_pairwise (xs : List Int) : (sortedPairs xs).Pairwise (fun a b => a.2 ≤ b.2) := by
+  have := List.pairwise_mergeSort (le := fun (a b : Nat × Int) => decide (a.2 ≤ b.2))
+    (fun a b c hab hbc => by simp only [decide_eq_true_eq] at *; omega)
+    (fun a b => by simp only [Bool.or_eq_true, decide_eq_true_eq]; omega)
+    ((List.range xs.length).zip xs)
+  unfold sortedPairs
+  exact this.imp (fun h => by simpa using h)
+
+theorem zip_range_getD (xs : List Int) : ∀ p ∈ (List.range xs.length).zip xs, xs.getD p.1 0 = p.2 := by
+  intro p hp
+  obtain ⟨i, hi, rfl⟩ := List.mem_iff_getElem.1 hp
+  simp only [List.length_zip, List.length_range, Nat.min_self] at hi
+  simp [List.getD_eq_getElem?_getD, List.getElem?_eq_getElem hi]
+
+theorem zip_range_map_snd (xs : List Int) : ((List.range xs.length).zip xs).map (·.2) = xs := by
+  rw [List.map_snd_zip]; simp
+
+theorem zip_range_map_fst (xs : List Int) : ((List.range xs.length).zip xs).map (·.1) = List.range xs.length := by
+  rw [List.map_fst_zip]; simp
+
+theorem argsortInt_perm (xs : List Int) : (argsortInt xs).Perm (List.range xs.length) := by
+  rw [argsortInt_eq, ← zip_range_map_fst xs]
+  exact (sortedPairs_perm xs).map _
+
+/-- gathering the keys through the sorting permutation = second components of sorted pairs -/
+theorem argsortInt_gather (xs : List Int) (f : Int → Nat) :
+    (argsortInt xs).map (fun k => f (xs.getD k 0)) = (sortedPairs xs).map (fun p => f p.2) := by
+  rw [argsortInt_eq, List.map_map]
+  apply List.map_congr_left
+  intro p hp
+  have := zip_range_getD xs p ((sortedPairs_perm xs).mem_iff.1 hp)
+  simp only [Function.comp, this]
+
+theorem gather_perm (xs : List Int) (f : Int → Nat) :
+    ((argsortInt xs).map (fun k => f (xs.getD k 0))).Perm (xs.map f) := by
+  rw [argsortInt_gather]
+  have := (sortedPairs_perm xs).map (fun p => f p.2)
+  have e : ((List.range xs.length).zip xs).map (fun p => f p.2) = xs.map f := by
+    conv => rhs; rw [← zip_range_map_snd xs, List.map_map]
+    rfl
+  rwa [e] at this
+
+theorem gather_sorted (xs : List Int) :
+    ((argsortInt xs).map (fun k => (xs.getD k 0).toNat)).Pairwise (· ≤ ·) := by
+  rw [argsortInt_gather xs Int.toNat, List.pairwise_map]
+  exact (sortedPairs_pairwise xs).imp (fun h => Int.toNat_le_toNat h)
+
+/-- on an already sorted key list `argsortInt` is the identity permutation -/
+theorem argsortInt_of_sorted (xs : List Int) (h : xs.Pairwise (· ≤ ·)) :
+    argsortInt xs = List.range xs.length := by
+  rw [argsortInt_eq]
+  unfold sortedPairs
+  rw [List.mergeSort_of_pairwise, zip_range_map_fst]
+  have : (((List.range xs.length).zip xs).map (·.2)).Pairwise (· ≤ ·) := by
+    rw [zip_range_map_snd]; exact h
+  rw [List.pairwise_map] at this
+  exact this.imp (fun h => by simpa using h)
+
+
+theorem any_neg_ofNat (d : List Nat) : (d.map Int.ofNat).any (· < 0) = false := by
+  rw [List.any_eq_false]
+  intro x hx
+  obtain ⟨n, _, rfl⟩ := List.mem_map.1 hx
+  simp
+
+theorem dimscheck_dims_none (N : Nat) (M : Option Nat) (d : List Int) :
+    dimscheck N M (some d) none =
+      if d.any (· < 0) then .error .reject else
+      match M with
+      | none => .ok ⟨(argsortInt d).map (fun k => (d.getD k 0).toNat), none⟩
+      | some m =>
+        if m > N then .error .reject
+        else if m ≠ N ∧ m ≠ d.length then .error .reject
+        else if d.length = m then .ok ⟨(argsortInt d).map (fun k => (d.getD k 0).toNat), some (argsortInt d)⟩
+        else .ok ⟨(argsortInt d).map (fun k => (d.getD k 0).toNat), some ((argsortInt d).map (fun k => (d.getD k 0).toNat))⟩ := by
+  unfold dimscheck
+  rfl
+
+
+theorem map_toNat_ofNat (d : List Nat) : (d.map Int.ofNat).map Int.toNat = d := by
+  rw [List.map_map]
+  conv => rhs; rw [← List.map_id d]
+  apply List.map_congr_left
+  intro n _; simp
+
+/-- sorted dims of a natural-number `dims` vector -/
+def sdimsOf (d : List Nat) : List Nat :=
+  (argsortInt (d.map Int.ofNat)).map (fun k => ((d.map Int.ofNat).getD k 0).toNat)
+
+theorem sdimsOf_sorted (d : List Nat) : (sdimsOf d).Pairwise (· ≤ ·) := gather_sorted _
+
+theorem sdimsOf_perm (d : List Nat) : (sdimsOf d).Perm d := by
+  have := gather_perm (d.map Int.ofNat) Int.toNat
+  rwa [map_toNat_ofNat] at this
+
+theorem dimscheck_dims (N : Nat) (d : List Nat) :
+    ∃ sd, dimscheck N none (some (d.map Int.ofNat)) none = .ok ⟨sd, none⟩ ∧
+      sd.Pairwise (· ≤ ·) ∧ sd.Perm d := by
+  refine ⟨sdimsOf d, ?_, sdimsOf_sorted d, sdimsOf_perm d⟩
+  rw [dimscheck_dims_none, any_neg_ofNat]
+  rfl
+
+theorem dimscheck_vidx_N (N : Nat) (d : List Nat) (hne : d.length ≠ N) :
+    ∃ sd, dimscheck N (some N) (some (d.map Int.ofNat)) none = .ok ⟨sd, some sd⟩ ∧
+      sd.Pairwise (· ≤ ·) ∧ sd.Perm d := by
+  refine ⟨sdimsOf d, ?_, sdimsOf_sorted d, sdimsOf_perm d⟩
+  rw [dimscheck_dims_none, any_neg_ofNat]
+  simp only [Bool.false_eq_true, if_false, List.length_map]
+  rw [if_neg (by omega), if_neg (by omega), if_neg hne]
+  rfl
+
+theorem getD_map_ofNat_toNat (d : List Nat) (k : Nat) :
+    ((d.map Int.ofNat).getD k 0).toNat = d.getD k 0 := by
+  simp only [List.getD_eq_getElem?_getD, List.getElem?_map]
+  cases d[k]? <;> simp
+
+theorem dimscheck_vidx_P (N : Nat) (d : List Nat) (hP : d.length ≤ N) :
+    ∃ sd vi, dimscheck N (some d.length) (some (d.map Int.ofNat)) none = .ok ⟨sd, some vi⟩ ∧
+      vi.Perm (List.range d.length) ∧ sd = vi.map (fun k => d.getD k 0) ∧
+      sd.Pairwise (· ≤ ·) := by
+  refine ⟨sdimsOf d, argsortInt (d.map Int.ofNat), ?_, ?_, ?_, sdimsOf_sorted d⟩
+  · rw [dimscheck_dims_none, any_neg_ofNat]
+    simp only [Bool.false_eq_true, if_false, List.length_map]
+    rw [if_neg (by omega), if_neg (by omega), if_pos trivial]
+    rfl
+  · have := argsortInt_perm (d.map Int.ofNat)
+    rwa [List.length_map] at this
+  · unfold sdimsOf
+    apply List.map_congr_left
+    intro k _
+    exact getD_map_ofNat_toNat d k
+
+theorem map_getD_range (l : List Nat) : (List.range l.length).map (fun k => l.getD k 0) = l := by
+  apply List.ext_getElem
+  · simp
+  · intro i h1 h2
+    simp at h1
+    simp [List.getD_eq_getElem?_getD, List.getElem?_eq_getElem h1]
+
+theorem sdimsOf_of_sorted (l : List Nat) (h : l.Pairwise (· ≤ ·)) : sdimsOf l = l := by
+  unfold sdimsOf
+  rw [argsortInt_of_sorted, List.length_map]
+  · conv => rhs; rw [← map_getD_range l]
+    apply List.map_congr_left
+    intro k _
+    exact getD_map_ofNat_toNat l k
+  · rw [List.pairwise_map]
+    exact h.imp (fun hab => by simpa using hab)
+
+theorem dimscheck_none_none (N : Nat) :
+    dimscheck N none none none = .ok ⟨sdimsOf (List.range N), none⟩ := by
+  unfold dimscheck
+  simp only [any_neg_ofNat]
+  rfl
+
+theorem dimscheck_all (N : Nat) : dimscheck N none none none = .ok ⟨List.range N, none⟩ := by
+  rw [dimscheck_none_none, sdimsOf_of_sorted]
+  exact List.pairwise_le_range
+
+theorem dimscheck_none_excl (N : Nat) (M : Option Nat) (e : List Int) :
+    dimscheck N M none (some e) =
+      if e.all (fun x => decide (0 ≤ x) && decide (x < (N : Int))) then
+        dimscheck N M (some (((List.range N).filter (fun (k : Nat) => !e.contains (Int.ofNat k))).map
+          (fun (k : Nat) => Int.ofNat k))) none
+      else .error .reject := by
+  by_cases h : e.all (fun x => decide (0 ≤ x) && decide (x < (N : Int))) = true
+  · rw [if_pos h, dimscheck_dims_none]
+    unfold dimscheck
+    simp only [h, if_true]
+    rfl
+  · rw [if_neg h]
+    unfold dimscheck
+    simp only [h]
+    rfl
+
+theorem contains_map_ofNat (e : List Nat) (k : Nat) :
+    (e.map Int.ofNat).contains (Int.ofNat k) = e.contains k := by
+  induction e with
+  | nil => rfl
+  | cons a e ih =>
+    simp only [List.map_cons, List.contains_cons, ih]
+    congr 1
+    by_cases h : k = a
+    · subst h; simp
+    · have : Int.ofNat k ≠ Int.ofNat a := fun hh => h (Int.ofNat.inj hh)
+      rw [beq_eq_false_iff_ne.2 this, beq_eq_false_iff_ne.2 h]
+
+theorem dimscheck_exclude (N : Nat) (e : List Nat) (he : ∀ x ∈ e, x < N) :
+    dimscheck N none none (some (e.map Int.ofNat)) =
+      .ok ⟨(List.range N).filter (fun k => !e.contains k), none⟩ := by
+  rw [dimscheck_none_excl]
+  have hall : (e.map Int.ofNat).all (fun x => decide (0 ≤ x) && decide (x < (N : Int))) = true := by
+    rw [List.all_eq_true]
+    intro x hx
+    obtain ⟨n, hn, rfl⟩ := List.mem_map.1 hx
+    have := he n hn
+    simp; omega
+  rw [if_pos hall]
+  simp only [contains_map_ofNat]
+  rw [dimscheck_dims_none, any_neg_ofNat]
+  simp only [Bool.false_eq_true, if_false]
+  show Except.ok (DimsCheck.mk (sdimsOf _) none) = _
+  rw [sdimsOf_of_sorted]
+  exact List.Pairwise.filter _ List.pairwise_le_range
+
+
+theorem any_neg_false_of_nonneg (d : List Int) (h : ∀ x ∈ d, 0 ≤ x) : d.any (· < 0) = false := by
+  rw [List.any_eq_false]
+  intro x hx
+  have := h x hx
+  simp; omega
+
+theorem dimscheck_rejects (N : Nat) (M : Option Nat) (d e : List Int) :
+    dimscheck N M (some d) (some e) = .error .reject ∧
+    ((∃ x ∈ e, x < 0 ∨ (N : Int) ≤ x) → dimscheck N M none (some e) = .error .reject) ∧
+    ((∃ x ∈ d, x < 0) → dimscheck N M (some d) none = .error .reject) ∧
+    (∀ m, N < m → (∀ x ∈ d, 0 ≤ x) → dimscheck N (some m) (some d) none = .error .reject) ∧
+    (∀ m, m ≠ N → m ≠ d.length → (∀ x ∈ d, 0 ≤ x) →
+        dimscheck N (some m) (some d) none = .error .reject) := by
+  refine ⟨rfl, ?_, ?_, ?_, ?_⟩
+  · rintro ⟨x, hx, hbad⟩
+    rw [dimscheck_none_excl, if_neg]
+    intro hall
+    rw [List.all_eq_true] at hall
+    have := hall x hx
+    simp at this
+    omega
+  · rintro ⟨x, hx, hneg⟩
+    rw [dimscheck_dims_none, if_pos]
+    rw [List.any_eq_true]
+    exact ⟨x, hx, by simpa using hneg⟩
+  · intro m hm hd
+    rw [dimscheck_dims_none, any_neg_false_of_nonneg d hd]
+    simp only [Bool.false_eq_true, if_false]
+    rw [if_pos hm]
+  · intro m h1 h2 hd
+    rw [dimscheck_dims_none, any_neg_false_of_nonneg d hd]
+    simp only [Bool.false_eq_true, if_false]
+    by_cases hm : m > N
+    · rw [if_pos hm]
+    · rw [if_neg hm, if_pos ⟨h1, h2⟩]
+
+/-- Non-vacuity witness used by `Props/C17.lean`.  `decide` cannot evaluate `List.mergeSort`
+(well-founded recursion), so the sort is unfolded by `simp`. -/
+theorem dimscheck_example :
+    dimscheck 4 (some 2) (some [3, 1]) none = .ok ⟨[1, 3], some [1, 0]⟩ := by
+  have h : argsortInt [3, 1] = [1, 0] := by
+    simp [argsortInt, List.range, List.range.loop, List.mergeSort, List.MergeSort.Internal.splitInTwo]
+  rw [dimscheck_dims_none]
+  simp [h]
+
 end Pyttb
